@@ -263,6 +263,52 @@ static void run_sets(int maxsz)
 	(void) z;
 }
 
+/* ---- group accounting of the set wrapper: parentheses that are not groups ---------------------------- */
+static void run_groupcount(void)
+{
+	/* first patterns that hold '(' or ')' as ordinary characters (escaped, or inside a bracket expression, also
+	 * after a negation, a class name or a leading ']'), some with real groups next to them; none matches "bc" */
+	static const char *first[] = {"\\(a", "a\\)", "[(]a", "[)]a", "[()]a", "[^(]x", "[^)b]x", "[[:alpha:](]x", "[](]x", "[^](]x",
+		"\\[(x)", "\\\\(x)", "(x)[(]", "[(](x)", "\\((x)\\)", "[[:digit:]()]", "x[(](y)[)]", "[a(-)]x"};
+	static const int real_groups[] = {0, 0, 0, 0, 0, 0, 0, 0, 0, 0, 1, 1, 1, 1, 1, 0, 1, 0};
+	unsigned i;
+	int icase;
+	if (nv_shard != 0)
+		return;
+	for (i = 0; i < sizeof(first) / sizeof(first[0]); i++)
+		for (icase = 0; icase < 2; icase++) {
+			char *pats[2];
+			int g[16], k, r;
+			struct rset *rs;
+			static const int want[6] = {0, 2, 0, 1, 1, 2};
+			pats[0] = (char *) first[i];
+			pats[1] = "(b)(c)";
+			rs = rset_make(2, pats, icase ? RE_ICASE : 0);
+			nv_stat("sets", 1);
+			nv_stat("transitions", 1);
+			if (!rs) {
+				nv_viol("c10-compile", "kind=set patterns={%s , (b)(c)} failed to compile", nv_esc(first[i], -1));
+				continue;
+			}
+			for (k = 0; k < 16; k++)
+				g[k] = -7;
+			r = rset_find(rs, "bc\n", 4, g, 0);
+			if (r != 1)
+				nv_viol("c10-set-index", "kind=set patterns={%s , (b)(c)} subject=\"bc\" icase=%d engine index %d expected 1", nv_esc(first[i], -1), icase, r);
+			else
+				for (k = 0; k < 6; k++)
+					if (g[k] != want[k]) {
+						nv_viol("c10-set-groups", "kind=set patterns={%s , (b)(c)} subject=\"bc\" icase=%d: offsets (%d,%d)(%d,%d)(%d,%d), expected (0,2)(0,1)(1,2): "
+							"the first pattern has %d group(s), its other parentheses are ordinary characters",
+							nv_esc(first[i], -1), icase, g[0], g[1], g[2], g[3], g[4], g[5], real_groups[i]);
+						break;
+					}
+			if (r == 1 && g[6] != -1 && g[6] != -7)
+				nv_viol("c10-set-groups", "kind=set patterns={%s , (b)(c)} subject=\"bc\": a third group is reported (%d,%d)", nv_esc(first[i], -1), g[6], g[7]);
+			rset_free(rs);
+		}
+}
+
 /* ---- depth family: the documented recursion depth must be available --------------------------- */
 static void run_depth(void)
 {
@@ -324,6 +370,7 @@ int main(int argc, char **argv)
 		nv_stat("max:ast_size_completed", s);
 	}
 	run_sets(setsz);
+	run_groupcount();
 out:
 	alarm(0);
 	nv_stat("patterns", npat);
